@@ -35,12 +35,23 @@ type c01Stream struct {
 	DataAt   map[int]int // packet index -> payload size
 	Pcap     string
 	PcapBase uint64
+	// Split > 0: the packets from position Split on come from a second capture file, numbered there so that the
+	// first of them has the same packet number as the packet before it (same number, different capture)
+	Split int
 	UDP      bool
 	payload  map[int][]byte
 }
 
 func (s *c01Stream) describe() string {
 	return fmt.Sprintf("id=%d %s>%s packets=%d data=%v gapsUS=%v pcap=%s+%d udp=%v", s.ID, s.Client, s.Server, len(s.Dirs), s.DataAt, s.GapsUS, s.Pcap, s.PcapBase, s.UDP)
+}
+
+// src: capture file and packet number of the stream's i-th packet
+func (s *c01Stream) src(i int) (string, uint64) {
+	if s.Split > 0 && i >= s.Split {
+		return "second-" + s.Pcap, s.PcapBase + uint64(s.Split-1) + uint64(i-s.Split)
+	}
+	return s.Pcap, s.PcapBase + uint64(i)
 }
 
 func (s *c01Stream) build(rng *rand.Rand) streams.Stream {
@@ -56,12 +67,20 @@ func (s *c01Stream) build(rng *rand.Rand) streams.Stream {
 	}
 	ts := s.Start
 	s.payload = map[int][]byte{}
+	var info2 *pcapmetadata.PcapInfo
 	for i, d := range s.Dirs {
 		if i > 0 {
 			ts = ts.Add(time.Duration(s.GapsUS[i-1]) * time.Microsecond)
 		}
 		ci := gopacket.CaptureInfo{Timestamp: ts, CaptureLength: 60, Length: 60}
-		pcapmetadata.AddPcapMetadata(&ci, info, s.PcapBase+uint64(i))
+		if fn, idx := s.src(i); fn == s.Pcap {
+			pcapmetadata.AddPcapMetadata(&ci, info, idx)
+		} else {
+			if info2 == nil {
+				info2 = &pcapmetadata.PcapInfo{Filename: fn, Filesize: 1, PacketTimestampMin: s.Start, PacketTimestampMax: s.Start.Add(time.Hour * 100), ParseTime: s.Start, PacketCount: uint(s.PcapBase) + uint(len(s.Dirs))}
+			}
+			pcapmetadata.AddPcapMetadata(&ci, info2, idx)
+		}
 		st.Packets = append(st.Packets, ci)
 		dir := reassembly.TCPDirClientToServer
 		if !d {
@@ -107,6 +126,20 @@ func genC01Stream(rng *rand.Rand, id uint64, kind int) *c01Stream {
 		n = 300 + rng.Intn(300)
 		gaps = []int64{1 << 24, 1 << 25, 3 << 23, 1000}
 	}
+	if kind == 5 {
+		// ping-pong: thousands of one byte pieces in alternating directions and a longer last piece (the list of
+		// direction-run sizes is longer than the 4096 byte buffer it is copied through when files are merged)
+		n = 4085 + rng.Intn(20)
+		for i := 0; i < n; i++ {
+			s.Dirs = append(s.Dirs, i%2 == 0)
+			if i > 0 {
+				s.GapsUS = append(s.GapsUS, 1)
+			}
+			s.DataAt[i] = 1
+		}
+		s.DataAt[n-1] = 150 + rng.Intn(100)
+		return s
+	}
 	for i := 0; i < n; i++ {
 		s.Dirs = append(s.Dirs, rng.Intn(2) == 0)
 		if i > 0 {
@@ -119,6 +152,9 @@ func genC01Stream(rng *rand.Rand, id uint64, kind int) *c01Stream {
 		if rng.Intn(p) == 0 {
 			s.DataAt[i] = sizes[rng.Intn(len(sizes))]
 		}
+	}
+	if len(s.Dirs) >= 2 && rng.Intn(4) == 0 {
+		s.Split = 1 + rng.Intn(len(s.Dirs)-1)
 	}
 	return s
 }
@@ -232,7 +268,8 @@ func TestC01Standin(t *testing.T) {
 					if !s.Dirs[i] {
 						wantDir = DirectionServerToClient
 					}
-					if p.PcapFilename != s.Pcap || p.PcapIndex != s.PcapBase+uint64(i) || p.Direction != wantDir || !p.Timestamp.Equal(pt) {
+					wantFn, wantIdx := s.src(i)
+					if p.PcapFilename != wantFn || p.PcapIndex != wantIdx || p.Direction != wantDir || !p.Timestamp.Equal(pt) {
 						class := "packet"
 						for _, g := range s.GapsUS {
 							if g >= 1<<32 {
@@ -241,7 +278,7 @@ func TestC01Standin(t *testing.T) {
 								class = "packet-time-after-silence-over-71min"
 							}
 						}
-						fail(class, in, fmt.Sprintf("packet %d: %s#%d dir=%v at %v, want %s#%d dir=%v at %v", i, p.PcapFilename, p.PcapIndex, p.Direction, p.Timestamp.UTC(), s.Pcap, s.PcapBase+uint64(i), wantDir, pt.UTC()))
+						fail(class, in, fmt.Sprintf("packet %d: %s#%d dir=%v at %v, want %s#%d dir=%v at %v", i, p.PcapFilename, p.PcapIndex, p.Direction, p.Timestamp.UTC(), wantFn, wantIdx, wantDir, pt.UTC()))
 						break
 					}
 				}
@@ -333,7 +370,7 @@ func TestC01Standin(t *testing.T) {
 						continue
 					}
 					used[id] = true
-					s := genC01Stream(rng, id, []int{0, 0, 0, 1, 2, 4}[rng.Intn(6)])
+					s := genC01Stream(rng, id, []int{0, 0, 0, 0, 0, 0, 0, 1, 1, 2, 2, 4, 4, 5}[rng.Intn(14)])
 					if f%2 == 1 {
 						// files written at another time have another reference time: merged times are re-based
 						s.Start = s.Start.Add(time.Duration(rng.Intn(1000)) * time.Hour)
@@ -453,7 +490,7 @@ func TestC01Standin(t *testing.T) {
 		var ss []*c01Stream
 		n := 1 + rng.Intn(8)
 		for i := 0; i < n; i++ {
-			s := genC01Stream(rng, uint64(i*3+rng.Intn(3)), []int{0, 0, 0, 1, 2, 3, 4}[rng.Intn(7)])
+			s := genC01Stream(rng, uint64(i*3+rng.Intn(3)), []int{0, 0, 0, 0, 0, 0, 1, 1, 2, 2, 3, 3, 4, 4, 5}[rng.Intn(15)])
 			st := s.build(rng)
 			ok, err := w.AddStream(&st, s.ID)
 			if err != nil || !ok {
@@ -488,6 +525,13 @@ func TestC01Standin(t *testing.T) {
 			if i%5 == 0 {
 				s.Client = netip.AddrPortFrom(netip.AddrFrom16([16]byte{0xfd, 0, 0, 0, 0, 0, 0, 0, 0, 0, 0, 0, 0, byte(i >> 16), byte(i >> 8), byte(i)}), 1000).String()
 				s.Server = "[fd00::99]:80"
+			}
+			if i%997 == 3 && (i/2)%5 != 0 && i%5 != 0 {
+				// a client that an earlier stream brought (it sits in an earlier, by now full host group) talks to a
+				// server that is new: placing the pair must not disturb the hosts of the earlier streams
+				j := i / 2
+				s.Client = netip.AddrPortFrom(netip.AddrFrom4([4]byte{11, byte(j >> 16), byte(j >> 8), byte(j)}), 1000).String()
+				s.Server = netip.AddrPortFrom(netip.AddrFrom4([4]byte{13, byte(i >> 16), byte(i >> 8), byte(i)}), 80).String()
 			}
 			st := s.build(rng)
 			if ok, err := w.AddStream(&st, s.ID); err != nil || !ok {
